@@ -23,7 +23,9 @@ Exploration: configuration space, five kinds of states
 
 Reference: mc/ref/interp_ref.py (weights by bisection in exact rational arithmetic).
 """
+import functools
 import itertools
+import operator
 import types
 
 import numpy as np
@@ -91,11 +93,16 @@ P1 = {
 INEXACT_P1 = tuple(k for k in sorted(P1) if not _exact_nodes(P1[k]))
 
 DISP = [0.0, 0.5, -0.5, 1.0, -1.0, 0.25, -0.25]
+DISP_FAR = [1.5, -3.0, 6.0, -6.0, 40.0]
 
 SAMPLE_STYLES = ['oop', 'oop_kw', 'ip', 'ip_kw', 'ip_kwreq', 'dual', 'dual_kwonly', 'vec',
                  'vec_otypes', 'vec_kw', 'obj', 'obj_ip', 'obj_dual', 'ufunc', 'const',
-                 'direct_oop', 'direct_ip', 'direct_dual']
-ONLY_1D = ('ufunc', 'direct_oop', 'direct_ip', 'direct_dual')
+                 'direct_oop', 'direct_ip', 'direct_dual',
+                 # callables that are not plain Python functions
+                 'partial', 'partial_ip', 'method', 'method_ip', 'method_dual', 'classmethod',
+                 'staticmethod', 'kwonly_param', 'varkw', 'uninspectable']
+ONLY_1D = ('ufunc', 'direct_oop', 'direct_ip', 'direct_dual', 'uninspectable')
+NOT_PLAIN = ('partial', 'partial_ip', 'method', 'method_ip', 'method_dual', 'classmethod')
 
 
 def _scheme_list(d):
@@ -148,7 +155,8 @@ def configs(tier):
             for sc in _scheme_list(len(grid)):
                 for dt in (DTYPES if th or len(grid) < 3 else ('f64', 'c128', 'i64')):
                     out.append({'kind': 'interp', 'grid': grid, 'scheme': sc, 'dtype': dt,
-                                'far': th, 'dense': th or len(grid) < 3})
+                                'far': th, 'dense': th or len(grid) < 3,
+                                'farout': len(grid) < 3})
 
     # ---- sample
     shapes = [[n] for n in (1, 2, 3, 4)]
@@ -177,7 +185,8 @@ def configs(tier):
             for od in (None, 'f64', 'c128', 'f32'):
                 out.append({'kind': 'sfunc', 'd': d, 'style': style, 'out_dtype': od, 'val': []})
         for style, vals in (('list', ([2], [3], [7], [2, 2])), ('list_ufunc', ([2],)),
-                            ('tuplefunc', ([3],)), ('arrayfunc', ([2],)), ('tensor_ip', ([2],)),
+                            ('tuplefunc', ([3],)), ('tuple_ident', ([2],)),
+                            ('arrayfunc', ([2],)), ('tensor_ip', ([2],)),
                             ('tensor_dual', ([2],))):
             if style == 'list_ufunc' and d != 1:
                 continue
@@ -274,7 +283,11 @@ class _Rec(object):
     def viol(self, site, sym, detail):
         self.first.setdefault((site, sym), str(detail)[:900])
 
+    note = None
+
     def result(self, sample=None):
+        if sample is None:
+            sample = self.note
         res = {'evals': self.evals, 'skipped': self.skipped,
                'viol': [{'site': s, 'symptom': y, 'detail': d}
                         for (s, y), d in self.first.items()],
@@ -405,6 +418,7 @@ def _make_interp(sc, f, cvecs):
 # One root cause, independent of scheme and dtype (``_Interpolator.__call__`` turns the mesh
 # tuple into an object array): reported under one site.
 MESH_SITE = 'interpolators[meshgrid input]'
+SINGLE_SITE = 'interpolators[linear on a single-node axis]'
 
 
 def _interp_site(sc, d, dt):
@@ -424,15 +438,18 @@ def _run_interp(cfg):
     site = _interp_site(sc, d, dt)
     cvecs = tuple(np.array(AX[a]) for a in grid)
     nshape = tuple(len(c) for c in cvecs)
+    single_lin = any(s_ == 'linear' and n == 1 for s_, n in zip(schemes, nshape))
+    if single_lin:
+        # one root cause (division by the zero node spacing in _find_indices): one site, and
+        # the state stops at the first clause that shows it
+        site = SINGLE_SITE
     exact = not any(a in INEXACT_AX for a in grid)
     npdt = NP_DT[dt]
     rec.sigs.add('%s|%s|%s' % (site, ','.join(schemes), 'exact' if exact else 'tol'))
 
     # --- admissibility
-    if any(s == 'linear' and n == 1 for s, n in zip(schemes, nshape)):
-        # an axis with one node has no "surrounding nodes" to blend: not documented
-        rec.skipped += 1
-        return rec.result()
+    # (a linear axis with a single node is judged AT the node -- node values are reproduced --
+    # and masked as unspecified elsewhere, see mc/ref/interp_ref.py)
     if dt in ('i64', 'U') and 'linear' in schemes:
         # "Nearest neighbor interpolation is the only scheme which works with data of
         # non-numeric data type since it does not involve any arithmetic operations on the
@@ -447,7 +464,12 @@ def _run_interp(cfg):
 
     pts = []
     for a, c, s in zip(grid, cvecs, schemes):
-        p = R.axis_points(c, outside=True, far=cfg['far'])
+        # farout: 1.5, 2, 3 and 10 node spacings outside the hull.  Nearest: the closest node is
+        # the edge node.  Linear: the docstrings only describe the virtual zero node one spacing
+        # out ("implicitly assuming 0 at the next node"); beyond it nothing is documented and
+        # the property speaks of "the documented zero-extension just outside": masked, counted.
+        p = R.axis_points(c, outside=True, far=cfg['far'],
+                          cells=(1.5, 2.0, 3.0, 10.0) if cfg.get('farout') else ())
         if a in INEXACT_AX and s == 'nearest':
             keep = [t for t in p if not R.is_tie(c, t)]     # a rounded midpoint is not a tie
             rec.skipped += len(p) - len(keep)
@@ -461,6 +483,9 @@ def _run_interp(cfg):
         pts.append(p)
     pshape = tuple(len(p) for p in pts)
     W, ok = R.tensor_matrix(cvecs, pts, schemes)
+    rec.skipped += int((~ok).sum())
+    if not ok.any():
+        return rec.result()
     mesh = sparse_meshgrid(*[np.array(p) for p in pts])
     where = 'grid=%s scheme=%s dtype=%s' % (grid, sc, dt)
 
@@ -498,7 +523,7 @@ def _run_interp(cfg):
                                 np.asarray(got)[b]))
             if broken:
                 break
-        if broken:
+        if broken or (single_lin and rec.first):
             return rec.result()
 
     # --- (2) calling conventions on one generic value array
@@ -532,7 +557,12 @@ def _run_interp(cfg):
                      % (where, [AX[a] for a in grid], _short(want), _short(got)))
         return got
 
-    conv('mesh', lambda: I(mesh), want_g)
+    got_mesh = conv('mesh', lambda: I(mesh), want_g)
+    if d == 1 and dt == 'f64' and got_mesh is not None and not ok.all():
+        # what the code does where nothing is documented (evidence only, not judged)
+        rec.note = {'unspecified_points': [pts[0][i] for i in np.flatnonzero(~ok)],
+                    'observed': np.asarray(got_mesh)[~ok].tolist(), 'values': g.tolist(),
+                    'coords': AX[grid[0]]}
     pa = np.array(list(itertools.product(*pts))).T.reshape(d, -1)       # (d, N), C order
     okf = ok.ravel()
     wantf = want_g.ravel()
@@ -707,10 +737,49 @@ def _val(S, cplx):
     return val
 
 
-def _callable(style, S, cplx, otype=None):
+def _callable(style, S, cplx, otype=None, val=None):
     """(callable, kwargs for the call, shift added by the kwargs)."""
-    val = _val(S, cplx)
+    val = _val(S, cplx) if val is None else val
     sc = complex if cplx else float
+    if style == 'partial':
+        def f(x, c=0.0):
+            return val(x) + c
+        return functools.partial(f, c=0.25), {}, 0.25
+    if style == 'partial_ip':
+        def f(x, out, c=0.0):
+            out[:] = val(x) + c
+        return functools.partial(f, c=0.25), {}, 0.25
+    if style in ('method', 'method_ip', 'method_dual', 'classmethod', 'staticmethod'):
+        class K(object):
+            def m(self, x):
+                return val(x)
+
+            def m_ip(self, x, out):
+                out[:] = val(x)
+
+            def m_dual(self, x, out=None):
+                if out is None:
+                    return val(x)
+                out[:] = val(x)
+
+            @classmethod
+            def c(cls, x):
+                return val(x)
+
+            @staticmethod
+            def s(x):
+                return val(x)
+        k = K()
+        return {'method': k.m, 'method_ip': k.m_ip, 'method_dual': k.m_dual,
+                'classmethod': K.c, 'staticmethod': K.s}[style], {}, 0.0
+    if style == 'kwonly_param':
+        def f(x, *, c=0.0):
+            return val(x) + c
+        return f, {'c': 0.25}, 0.25
+    if style == 'varkw':
+        def f(x, **kw):
+            return val(x) + kw.get('c', 0.0)
+        return f, {'c': 0.25}, 0.25
     if style == 'oop':
         return (lambda x: val(x)), {}, 0.0
     if style == 'oop_kw':
@@ -775,6 +844,10 @@ _UFUNCS = [('negative', np.negative, lambda t: -t), ('square', np.square, lambda
 
 def _style_class(style):
     """Site name of a callable style: styles that share the wrapper's decision share a site."""
+    if style in NOT_PLAIN:
+        # functools.partial objects, bound methods, class methods: one decision of
+        # _func_out_type (it inspects ``func.__call__`` of everything that is not a function)
+        return 'not a plain function:' + style
     if style in ('ip', 'ip_kw', 'obj_ip', 'direct_ip'):
         return 'in-place only:' + style
     if style == 'ip_kwreq':
@@ -823,6 +896,29 @@ def _cases(style, d, cplx_space, otype):
                     out[:] = val(x)
             yield ('direct%s' % (',complex' if cplx else ''), f, {},
                    (lambda p, val=val: val(p[0])))
+        if style == 'direct_oop':
+            yield 'identity x', (lambda x: x), {}, (lambda p: p[0])
+        elif style == 'direct_ip':
+            def fi(x, out):
+                out[:] = x
+            yield 'identity x', fi, {}, (lambda p: p[0])
+        else:
+            def fd(x, out=None):
+                if out is None:
+                    return x
+                out[:] = x
+            yield 'identity x', fd, {}, (lambda p: p[0])
+        return
+    if style == 'uninspectable':
+        # builtins, numpy.vectorize objects, *args signatures: no Python-level signature with
+        # a single input.  "*args not allowed in function signature ... since they make
+        # argument propagation a huge hassle" (_check_func_out_arg): a TypeError is the
+        # documented answer and is counted; if the callable is accepted its values are judged.
+        yield 'abs', abs, {}, (lambda p: abs(p[0]))
+        yield 'operator.neg', operator.neg, {}, (lambda p: -p[0])
+        yield ('numpy.vectorize', np.vectorize(lambda t: 2.0 * t + 0.5), {},
+               (lambda p: 2.0 * p[0] + 0.5))
+        yield '*args', (lambda *a: a[0][0] * 2.0), {}, (lambda p: p[0] * 2.0)
         return
     for S in _subsets(d):
         for cplx in ((False, True) if cplx_space else (False,)):
@@ -830,6 +926,10 @@ def _cases(style, d, cplx_space, otype):
             val = _val(S, cplx)
             yield ('S=%s%s' % (S, ',complex' if cplx else ''), f, kw,
                    (lambda p, val=val, shift=shift: val(p) + shift))
+    # the callable returns its argument unchanged (a view of the mesh)
+    for k in range(d):
+        f, kw, shift = _callable(style, [k], False, otype, val=(lambda x, k=k: x[k]))
+        yield ('identity x[%d]' % k, f, kw, (lambda p, k=k, shift=shift: p[k] + shift))
 
 
 def _sample_space(cfg):
@@ -851,6 +951,30 @@ def _sample_space(cfg):
         part = odl.nonuniform_partition(*nodes, min_pt=[0.0] * d, max_pt=[4.0] * d)
         sp = odl.DiscretizedSpace(part, odl.tensor_space(part.shape, dtype=dt))
     return sp, nodes
+
+
+def _check_owns(rec, site, sp, el, got, where):
+    """A sampled element owns its values: no memory shared with the grid of the space, and
+    overwriting the element in place leaves the (hashable, shared) grid bit-identical."""
+    cvs = sp.grid.coord_vectors
+    if site.startswith('element(callable)'):
+        site = 'element(callable)[returns its input]'     # one root cause, whatever the style
+    if any(np.shares_memory(got, c) for c in cvs):
+        # (not overwritten here: that would corrupt the space for the rest of the state)
+        rec.viol(site, 'shares_memory_with_grid',
+                 '%s: element.asarray() shares memory with space.grid.coord_vectors, so '
+                 'element *= 2 changes the grid and the meshgrid of the space' % where)
+        return
+    before = [c.tobytes() for c in cvs]
+    try:
+        el *= 2
+    except Exception as ex:
+        rec.viol(site, 'imul_' + _exc(ex), '%s: %r' % (where, ex))
+        return
+    if [c.tobytes() for c in sp.grid.coord_vectors] != before:
+        rec.viol(site, 'grid_changed_by_element',
+                 '%s: the grid of the space changed when the element was scaled in place'
+                 % where)
 
 
 def _run_sample(cfg):
@@ -879,6 +1003,10 @@ def _run_sample(cfg):
                 el = sp.element(f, order=order, **kw)
                 got = el.asarray()
             except Exception as ex:
+                if (style == 'uninspectable' and isinstance(ex, TypeError) and
+                        '*args not allowed' in str(ex)):
+                    rec.skipped += 1
+                    continue
                 rec.viol(site, _exc(ex), '%s case %s order=%s: %r' % (where, label, order, ex))
                 continue
             rec.evals += 1
@@ -894,6 +1022,22 @@ def _run_sample(cfg):
                 rec.viol(site, 'order_not_enforced', '%s case %s order=C' % (where, label))
             if order == 'F' and not got.flags.f_contiguous:
                 rec.viol(site, 'order_not_enforced', '%s case %s order=F' % (where, label))
+            _check_owns(rec, site, sp, el, got, '%s case %s order=%s' % (where, label, order))
+    if style == 'oop' and cfg['dtype'] == 'f64':
+        # vector field whose components return a mesh component
+        vsite = 'tangent_bundle.element(callables)'
+        try:
+            v = sp.tangent_bundle.element([(lambda x, k=k: x[k]) for k in range(d)])
+            rec.evals += 1
+            for k in range(d):
+                want = R.sample(nodes, (lambda p, k=k: p[k]), dt)
+                got = v[k].asarray()
+                if not np.array_equal(got, want):
+                    rec.viol(vsite, 'values_differ', '%s component %d: expected %s, got %s'
+                             % (where, k, _short(want), _short(got)))
+                _check_owns(rec, vsite, sp, v[k], got, '%s component %d' % (where, k))
+        except Exception as ex:
+            rec.viol(vsite, _exc(ex), '%s: %r' % (where, ex))
     return rec.result()
 
 
@@ -935,6 +1079,9 @@ def _tensor_case(style, d, val, cplx=False):
         # ufunc-like member of an array of callables (1-d only: a ufunc acts on x itself)
         f, _, _ = _callable('oop', full, False)
         return [np.negative, f], [(lambda p: -p[0]), _val(full, False)]
+    if style == 'tuple_ident':
+        # a vector field whose components ARE mesh components
+        return (lambda x: (x[0], x[d - 1])), [(lambda p: p[0]), (lambda p: p[d - 1])]
     va, v0 = _val(full, cplx), _val([0], cplx)
     if style == 'tuplefunc':
         # "a single function returning an array-like of results", with broadcasting
@@ -977,6 +1124,9 @@ def _run_sfunc(cfg):
     mesh = sparse_meshgrid(*[np.array(a) for a in axes])
     pa = np.array(list(itertools.product(*axes))).T.reshape(d, -1)
 
+    if val and style == 'tuple_ident' and od != 'f64':
+        rec.skipped += 1                  # the mesh components are float64 (same dtype check)
+        return rec.result()
     if val and style == 'tuplefunc' and od == 'f32':
         # the result of a tuple-returning function must already have the scalar dtype
         # (deliberate check "result is of dtype ..., expected ..."): nothing to judge
@@ -997,10 +1147,15 @@ def _run_sfunc(cfg):
         try:
             F = DU.sampling_function(f, dom, out_dtype=out_dtype)
         except Exception as ex:
+            if (style == 'uninspectable' and isinstance(ex, TypeError) and
+                    '*args not allowed' in str(ex)):
+                rec.skipped += 1          # the documented answer to such signatures
+                continue
             rec.viol(site, 'create_' + _exc(ex), '%s case %s: %r' % (where, label, ex))
             continue
 
         seen_exc = set()
+        inputs = list(mesh) + [pa]
 
         def conv(name, call, w):
             try:
@@ -1015,6 +1170,12 @@ def _run_sfunc(cfg):
                 return
             rec.evals += 1
             got = np.asarray(got)
+            if 'out' not in name and any(np.shares_memory(got, a) for a in inputs):
+                # the wrapper hands back what the callable returned, here a view of the
+                # caller's own input: point_collocation "does little more than calling the
+                # function ... and returning the result" -- counted, not judged (the element
+                # made from it is judged: element(callable) shares_memory_with_grid)
+                rec.skipped += 1
             if got.shape != np.shape(w) or not np.array_equal(got, w):
                 # non-C layouts of out: one report per layout and case (first convention)
                 key = name[name.index('['):] if '[' in name else None
@@ -1035,6 +1196,11 @@ def _run_sfunc(cfg):
             if guard is not None and not guard():
                 rec.viol(site, 'out_wrote_outside', '%s case %s: memory between the entries '
                          'of a strided out was modified' % (where, label))
+            xs = list(x) if isinstance(x, tuple) else [x]
+            if any(np.shares_memory(o, a) for a in xs) or (
+                    isinstance(r, np.ndarray) and any(np.shares_memory(r, a) for a in xs)):
+                rec.viol(site, 'out_aliases_input', '%s case %s: out / the returned array '
+                         'shares memory with the evaluation points' % (where, label))
             return o
 
         conv('mesh', lambda: F(mesh, **kw), want)
@@ -1092,6 +1258,9 @@ def _run_resample(cfg):
     ran, rnodes = _space(cfg['ran'], dt)
     exact = not any(n in INEXACT_P1 for n in cfg['dom'] + cfg['ran'])
     site = 'Resampling[%s]' % dt
+    single_lin = any(s_ == 'linear' and len(P1[nm]) == 1 for s_, nm in zip(schemes, cfg['dom']))
+    if single_lin:
+        site = 'Resampling[linear on a single-node axis]'
     where = 'domain=%s range=%s on [0,4]^%d interp=%s' % (cfg['dom'], cfg['ran'], d,
                                                           _interp_arg(sc, d))
     W, ok = R.tensor_matrix(dnodes, rnodes, schemes)       # ran.shape + dom.shape
@@ -1107,7 +1276,7 @@ def _run_resample(cfg):
     lead = ran.shape[0] == 1 and any(n > 1 for n in ran.shape[1:])
     pre = 'range_first_axis_single_point_' if lead else ''
     site0 = site
-    if lead:
+    if lead and not single_lin:
         site = 'Resampling[range meshgrid]'
     units = [1.0] + ([1j] if dt == 'c128' else [])
     for idx in itertools.product(*[range(n) for n in dom.shape]):
@@ -1126,6 +1295,8 @@ def _run_resample(cfg):
                          '%s domain nodes %s range nodes %s: column of node %s expected %s, '
                          'got %s' % (where, dnodes, rnodes, list(idx), _short(want),
                                      _short(got)))
+    if single_lin and rec.first:
+        return rec.result()
     g = _generic(dom.shape, dt)
     want = R.apply_weights(W, g, d).astype(npdt)
     try:
@@ -1186,6 +1357,10 @@ def _run_deform(cfg):
     exact = not any(n in INEXACT_P1 for n in cfg['space'])
     site = {'function': 'linear_deform', 'FixedTempl': 'LinDeformFixedTempl',
             'FixedDisp': 'LinDeformFixedDisp'}[via] + '[%s]' % dt
+    single_lin = any(s_ == 'linear' and len(P1[nm]) == 1
+                     for s_, nm in zip(schemes, cfg['space']))
+    if single_lin:
+        site = site.split('[')[0] + '[linear on a single-node axis]'
     interp = _interp_arg(sc, d)
     where = 'space=%s on [0,4]^%d interp=%s' % (cfg['space'], d, interp)
     rec.sigs.add('deform|%s|%s|%s' % (via, ','.join(schemes), 'exact' if exact else 'tol'))
@@ -1195,6 +1370,14 @@ def _run_deform(cfg):
     gridpts = list(itertools.product(*[range(n) for n in sp.shape]))
 
     fields = [[v] * len(gridpts) for v in itertools.product(DISP, repeat=d)]
+    if d <= 2:
+        # large displacements: the displaced points lie several cells outside the node hull
+        # (nearest: edge value; linear beyond the virtual zero node: undocumented, masked)
+        for v in DISP_FAR:
+            for a in range(d):
+                fields.append([tuple(v if b == a else 0.0 for b in range(d))] * len(gridpts))
+            if d > 1:
+                fields.append([(v,) * d] * len(gridpts))
     cyc = []
     for n in range(len(gridpts)):
         cyc.append(tuple(DISP[(n + 3 * a) % len(DISP)] for a in range(d)))
@@ -1245,6 +1428,8 @@ def _run_deform(cfg):
                      '%s nodes %s template %s displacement (per grid point) %s: expected %s, '
                      'got %s' % (where, nodes, _short(g), fld[:4], _short(want), _short(got)))
         last = (disp, want, ok, fld)
+        if single_lin and rec.first:
+            return rec.result()
 
     if last is not None and d >= 2:
         # the same template stored in Fortran order
@@ -1269,7 +1454,7 @@ def _run_deform(cfg):
     # object is a reference to it."  (operators: the usual op(x, out=element))
     if last is not None:
         disp, want, ok, fld = last
-        if via == 'function':
+        if via == 'function' and not single_lin:
             site = 'linear_deform[out=]'
             where += ' dtype=%s' % dt
         if via == 'function':
@@ -1421,6 +1606,7 @@ def _run_sdtype(cfg):
                          '%s callable %s: expected (float64 values at the float64 grid '
                          'points, cast once to %s) %s, got %s'
                          % (where, label, dt, _short(want), _short(got)))
+            _check_owns(rec, site, sp, el, got, '%s callable %s' % (where, label))
         except Exception as ex:
             rec.viol(site, _exc(ex), '%s callable %s: %r' % (where, label, ex))
         # the same through sampling_function / point_collocation with out_dtype = space dtype
@@ -1877,8 +2063,10 @@ def meta(tier):
             'point arrays are not required to be sorted: the Notes of nearest_interpolator say '
             'they are assumed sorted, but the docstring examples of all three interpolators '
             'and linear_deform pass unsorted arrays',
-            'counted as unspecified, not judged: linear scheme on an axis with a single node; '
-            'points farther outside than the documented virtual zero node; integer or string '
+            'counted as unspecified, not judged: linear scheme on an axis with a single node '
+            'away from that node (AT the node the node value must be reproduced); linear '
+            'scheme farther outside than the documented virtual zero node (evaluated at 1.5, '
+            '2, 3, 10 spacings out in 1-d/2-d: nearest judged, linear masked); integer or string '
             'values with a linear axis; string values with per_axis_interpolator',
             'numpy.vectorize infers the output type from the first point (a scalar function '
             'returning an int there truncates the rest); scalar functions used here return '
